@@ -11,13 +11,14 @@ import vlib
 
 class Lab:
     def __init__(self, scratch, yardl_bin, idx, gen, pkg=None, ndjson=False, sanitize=False,
-                 want_cpp=True, want_py=True, n_imports=None):
+                 want_cpp=True, want_py=True, n_imports=None, want_matlab=False):
         self.sc, self.yardl, self.idx, self.gen = scratch, yardl_bin, idx, gen
         self.root = scratch.path(f"lab{idx}")
         self.pkg = pkg if pkg is not None else gen.gen_package(n_imports=n_imports)
         self.ndjson = ndjson
         self.sanitize = sanitize
         self.want_cpp, self.want_py = want_cpp, want_py
+        self.want_matlab = want_matlab
         self.ok = False
         self.err = ""
         self.seq = 0
@@ -25,7 +26,7 @@ class Lab:
     def prepare(self):
         os.makedirs(self.root, exist_ok=True)
         self.pkgdir = vlib.write_package(self.root, self.pkg, self.gen.rng, ndjson=self.ndjson,
-                                         cpp=self.want_cpp, python=True)
+                                         cpp=self.want_cpp, python=True, matlab=self.want_matlab)
         rc, out, err = vlib.yardl(self.yardl, self.pkgdir, "generate")
         if rc != 0:
             self.err = f"yardl generate failed rc={rc}: {err[-2000:]}"
@@ -33,6 +34,7 @@ class Lab:
             return self
         self.out_cpp = os.path.join(self.root, "out_cpp")
         self.out_py = os.path.join(self.root, "out_py")
+        self.out_matlab = os.path.join(self.root, "out_matlab")
         self.pymod = vlib.to_snake(self.pkg.namespace)
         self.schemas = vlib.py_schemas(self.out_py, self.pkg.namespace)
         self.protos = {p["name"]: modelgen.proto_json(self.pkg, p) for p in self.pkg.protocols()}
